@@ -257,4 +257,16 @@ theorem ints_parse_as_floats (c : Ctx) : ∀ (as : List Arg) (ns : List Int),
     obtain ⟨xs, hx, hall⟩ := ints_parse_as_floats c as ns h.2 (fun m hm => hs m (by simp [hm]))
     exact ⟨y :: xs, by simp only [List.map_cons, Float.parseF, hy]; rw [← hx]; rfl, All2.cons hv hall⟩
 
+/-- The scaling loop of `unitize` never runs past the last unit: `units[rank]` is in range. -/
+theorem unitLoop_rank_le (sf : F64) (maxRank : Nat) : ∀ (fuel : Nat) (nf : F64) (rank : Nat),
+    rank ≤ maxRank → (Float.unitLoop sf maxRank fuel nf rank).2 ≤ maxRank
+  | 0, _, _, h => h
+  | fuel + 1, nf, rank, h => by
+    unfold Float.unitLoop
+    split
+    · rename_i hc
+      simp only [Bool.and_eq_true, decide_eq_true_eq] at hc
+      exact unitLoop_rank_le sf maxRank fuel _ _ (by omega)
+    · exact h
+
 end Rare.C11
